@@ -172,6 +172,32 @@ func checkCase(c Case) fw.Outcome {
 		out.Violation = fmt.Sprintf("schema of the grouping form differs from the inlined form\n%s\n--- grouping form\n%s\n--- inlined form\n%s", firstDiff(gd, id), gsrc, isrc)
 		return out
 	}
+	// a when written on an augment is evaluated at the target of the augment for every node the augment adds, also the
+	// nodes of a uses written in the augment; a when written on a node or on a uses is not (the generator's augments
+	// have when expressions of their own: k = 'x' and ../k = 'aug')
+	var whenWalk func(n schema.Node, path string) string
+	whenWalk = func(n schema.Node, path string) string {
+		for _, w := range n.Whens() {
+			ex := ""
+			if w.Mach != nil {
+				ex = w.Mach.GetExpr()
+			}
+			fromAug := ex == "k = 'x'" || ex == "../k = 'aug'"
+			if w.RunAsParent != fromAug {
+				return fmt.Sprintf("node %s: when %q has RunAsParent=%v, written on an augment=%v", path, ex, w.RunAsParent, fromAug)
+			}
+		}
+		for _, ch := range n.Children() {
+			if msg := whenWalk(ch, path+"/"+ch.Name()); msg != "" {
+				return msg
+			}
+		}
+		return ""
+	}
+	if msg := whenWalk(gres.MS, ""); msg != "" {
+		out.Violation = msg + "\n" + gsrc
+		return out
+	}
 	// nodes introduced by a cross-module augment belong to the augmenting module
 	byName := map[string]*sg.Mod{}
 	for _, m := range c.Mods {
